@@ -14,7 +14,7 @@ blocks, loops as "zero iterations | one iteration then havoc") and records, per 
 Expressions are rendered to normalised strings: parentheses and value-preserving casts dropped, enum
 constants by name, macro constants folded by clang, null-pointer constants as NULL, `-1 * (X)` as -X,
 constants on the right of == / !=.  Callees are resolved through referencedDecl (never by spelling)."""
-import json
+import json, re
 from astutil import strip, walk, loc_of, where, callee_name
 from report import AnalysisBroken
 
@@ -261,6 +261,10 @@ class Engine:
             for v in st.get('inner', []):
                 if v.get('kind') != 'VarDecl': continue
                 init = [c for c in v.get('inner', []) if 'Comment' not in c.get('kind', '')]
+                if v.get('storageClass') == 'static':
+                    # a static local keeps its value between calls: its initialiser says nothing about this call
+                    if not re.search(r'\[\d*\]', v.get('type', {}).get('qualType', '')): q.env[v['name']] = f"{v['name']}@static"
+                    continue
                 if init:
                     val = self.render(init[0], q); q.env[v['name']] = val; q.events.append(('set', v['name'], val, v))
                 else:
